@@ -18,7 +18,10 @@
 //
 // Scope: all .go files below <repo>/modules except *_test.go and generated *.pb.go, *.pb.gw.go,
 // *.pulsar.go.  The nested Go module modules/light-clients/08-wasm is loaded as its own module and
-// included.  Files that `go list` does not compile for the default build (other build tags) get a
+// included.  Directories named `testing` (the test-support simapps / mocks under
+// modules/apps/callbacks/testing and modules/light-clients/08-wasm/testing, which are compiled only
+// into test binaries and demo `simd` commands) are inventoried and printed as "test-support" but
+// carry no proof obligation.  Files that `go list` does not compile for the default build (other build tags) get a
 // purely syntactic pass: every `range X` whose operand is not syntactically a slice/array/string
 // literal, a make([]T..)/[]T(..) expression or an integer literal is listed as "unknown".
 //
@@ -61,6 +64,7 @@ type Site struct {
 	Type    string `json:"type"`
 	Hash    string `json:"hash"`
 	Typed   bool   `json:"typed"`
+	Support bool   `json:"test_support"` // below a `testing` directory: listed, no obligation
 }
 
 type listPkg struct {
@@ -251,7 +255,8 @@ func (s *scanner) scanFile(fset *token.FileSet, f *ast.File, path string, info *
 	add := func(fn, fhash string, pos token.Pos, kind, operand, typ string) {
 		perFunc[fn]++
 		s.sites = append(s.sites, Site{ID: fmt.Sprintf("%s:%s:%d", rel, fn, perFunc[fn]), File: rel, Func: fn, N: perFunc[fn],
-			Line: fset.Position(pos).Line, Kind: kind, Operand: operand, Type: typ, Hash: fhash, Typed: info != nil})
+			Line: fset.Position(pos).Line, Kind: kind, Operand: operand, Type: typ, Hash: fhash, Typed: info != nil,
+			Support: strings.Contains("/"+rel, "/testing/")})
 	}
 	visit := func(fn, fhash string, root ast.Node) {
 		ast.Inspect(root, func(n ast.Node) bool {
@@ -473,6 +478,10 @@ func main() {
 	}
 	if *print {
 		for _, x := range s.sites {
+			if x.Support {
+				fmt.Printf("  -- test-support (no obligation): %s line %d  range %s : %s\n", x.ID, x.Line, x.Operand, x.Type)
+				continue
+			}
 			fmt.Printf("  -- %s:%d  range %s : %s  [%s%s]\n  (\"%s\", \"%s\", ``TODO),\n", x.File, x.Line, x.Operand, x.Type, x.Kind,
 				map[bool]string{true: "", false: ", untyped"}[x.Typed], x.ID, x.Hash)
 		}
@@ -499,7 +508,13 @@ func main() {
 	}
 	bad := 0
 	seen := map[string]bool{}
+	support := 0
 	for _, x := range s.sites {
+		if x.Support {
+			support++
+			fmt.Printf("test-support (no obligation) %s (line %d): range %s\n", x.ID, x.Line, x.Operand)
+			continue
+		}
 		seen[x.ID] = true
 		r, ok := byID[x.ID]
 		switch {
@@ -525,7 +540,7 @@ func main() {
 	for _, n := range s.notes {
 		fmt.Println("note:", n)
 	}
-	fmt.Printf("maprange: %d sites inventoried, %d table rows, %d problems\n", len(s.sites), len(rows), bad)
+	fmt.Printf("maprange: %d sites inventoried (+%d in test-support directories), %d table rows, %d problems\n", len(s.sites)-support, support, len(rows), bad)
 	if bad > 0 {
 		os.Exit(1)
 	}
